@@ -247,6 +247,25 @@ func Open(dir string, opts ...walOpt) (*WAL, error) {
 	// don't need to jump through the mutateState hoops yet!
 	w.s.Store(&newState)
 
+	// If we crashed after the append that sealed the tail but before the
+	// rotation was committed to metaDB, the recovered tail is already sealed and
+	// would refuse every append (nothing else would ever rotate it). Complete
+	// that rotation now.
+	if recoveredTail {
+		sealed, indexStart, err := newState.tail.Sealed()
+		if err != nil {
+			return nil, err
+		}
+		if sealed {
+			w.writeMu.Lock()
+			err := w.rotateSegmentLocked(indexStart)
+			w.writeMu.Unlock()
+			if err != nil {
+				return nil, err
+			}
+		}
+	}
+
 	// Delete any unused segment files left over after a crash.
 	w.deleteSegments(toDelete)
 
